@@ -15,6 +15,7 @@ SOURCES = ["src/ampform/sympy/__init__.py", "src/ampform/sympy/_decorator.py"]
 PROP_MODULES = ["Ampverif.Props.C18"]
 N_CORR = {"quick": 45, "thorough": 700}
 N_ORACLE = {"quick": 60, "thorough": 1500}
+N_NEW = {"quick": 25, "thorough": 400}
 RULE = ("distinct (term, operation) pairs of the correspondence whose term has >= 2 summation indices or nesting "
         "depth >= 2, plus distinct oracle terms with >= 2 indices or nesting depth >= 2")
 
@@ -64,6 +65,7 @@ class C18Property:
     def run(self, tier: str, seed: int) -> int:  # noqa: C901, PLR0912, PLR0915
         from tools.corr import C18 as corr
         from tools.corr import C18m1 as m1
+        from tools.corr import C18new as new
         from tools.search import C18 as oracle
 
         chk = common.Check("C18", tier, seed)
@@ -73,6 +75,7 @@ class C18Property:
         chk.coverage["trusted_base"] = [
             "Lean 4.33 kernel, Mathlib (List.sum / ring lemmas over Rat)",
             "tools/corr/C18m1.py (S-expression printer/parser, SymPy<->AST conversion, exact evaluator mirroring stdInterp)",
+            "tools/corr/C18new.py (factories of the input iterables; what ONE iteration of a set/dict yields is observed on the Python object)",
             "SymPy's constructors (Add/Mul/Pow canonicalisation) and subs/xreplace on built-in nodes: executed, not modelled",
         ]
         chk.assumptions += [
@@ -114,12 +117,40 @@ class C18Property:
             chk.broken_correspondence("PoolSum vs model", f"{type(e).__name__}: {str(e)[-800:]}")
         except Exception as e:  # noqa: BLE001  the library itself failed on generated valid input
             chk.broken_correspondence("PoolSum vs model", f"{type(e).__name__}: {str(e)[-800:]}")
+        # ---- the constructor: PoolSum.__new__ on every kind of input iterable vs `psumNew` (Model/ExprNew.lean)
+        try:
+            nvar = new.infer_new_variant()
+        except Exception as e:  # noqa: BLE001
+            nvar = {"validateInOwnPass": 0, "dropsRepeated": 0}
+            chk.broken_correspondence("constructor variant probes", f"{type(e).__name__}: {e}")
+        chk.info("inferred_constructor_variant", nvar)
+        if nvar["validateInOwnPass"]:
+            chk.broken_correspondence("constructor variant", "PoolSum.__new__ iterates a value pool more than once (validateInOwnPass = true): "
+                                      "the theorems assume the sound constructor; Lean witness C18.two_pass_constructor_witness")
+        if nvar["dropsRepeated"]:
+            chk.broken_correspondence("constructor variant", "PoolSum.__new__ drops repeated pool values (dropsRepeated = true): "
+                                      "the theorems assume the sound constructor; Lean witness C18.dedup_constructor_witness")
+        try:
+            bad = new.correspondence(chk, common.rng_for("C18", seed, "new"), N_NEW[tier])
+            for b in bad[:8]:
+                chk.broken_correspondence("PoolSum.__new__ vs model", b)
+            if bad:
+                chk.note(f"constructor correspondence: {len(bad)} disagreements, first: {json.dumps(bad[0], default=str)[:400]}")
+        except (common.LeanRunError, m1.Unrepresentable) as e:
+            chk.broken_correspondence("PoolSum.__new__ vs model", f"{type(e).__name__}: {str(e)[-800:]}")
+        except Exception as e:  # noqa: BLE001
+            chk.broken_correspondence("PoolSum.__new__ vs model", f"{type(e).__name__}: {str(e)[-800:]}")
         # ---- independent oracle on the real code (always)
         chk.info("excluded_points_probed", oracle.probe_excluded())
         seen = set()
         n_wit = len(failing)
         failing += sorted(self.oracle_run(chk, common.rng_for("C18", seed, "oracle"), N_ORACLE[tier] * (4 if chk.broken else 1)),
                           key=lambda f: len(f.get("expr", "")))
+        try:
+            failing += sorted(new.oracle(chk, common.rng_for("C18", seed, "new-oracle"), N_NEW[tier] * (3 if chk.broken else 1)),
+                              key=lambda f: len(f.get("expr", "")))
+        except Exception as e:  # noqa: BLE001
+            chk.broken_correspondence("constructor oracle", f"{type(e).__name__}: {str(e)[-600:]}")
         for f in failing:
             key = (f["class"], f.get("expr"), f.get("old"), f.get("new"), f.get("how"))
             if key in seen:
@@ -180,7 +211,9 @@ def replay(data: dict) -> int:
 
     print(json.dumps(data, indent=1)[:3000])
     inp = data.get("input", {})
-    if "expr" not in inp:
+    if "expr" not in inp or "<" in inp["expr"]:
+        # (constructor stream: the input is a PoolSum built from an iterable object, described in words;
+        # the fixed cases of that stream run with every seed)
         return PROP.run("quick", 0)
     ns = {"PoolSum": PoolSum}
     expr = sp.sympify(inp["expr"], locals=ns)
@@ -223,7 +256,15 @@ MANIFEST = {
         "term mentioning no index commutes with evaluate as an equality of terms ALSO when the symbol occurs in a pool or only in a pool; subs(x,a) = "
         "environment update and xreplace = simultaneous update as values (pools included), hence subs-then-doit = doit-then-subs as values; "
         "subs/xreplace of an index is the identity (sound variant); decide-witnesses for the unsound variant, for cleanup, for a repeated index symbol "
-        "and for a pool mentioning a sibling index. Unbounded in all inputs. Standing hypothesis wfSums (decidable, part of the model): distinct index "
+        "and for a pool mentioning a sibling index. The CONSTRUCTOR (Model/ExprNew.lean: PoolSum.__new__ line by line over `Pool` = what iterating the "
+        "Python object yields + whether it is a one-shot iterator): for every kind of input iterable the constructor stores the summand and exactly the values "
+        "the object yields — order and duplicates kept (new_stores_given_values), evaluate=True has the value of the explicit sum over them "
+        "(new_evaluate_denotes), an empty pool / exhausted iterator is the ValueError (new_rejects_empty_pool), func(*args) is the identity "
+        "(rebuild_is_identity), subs/xreplace performed THROUGH the constructor are the model's subs/xreplace and keep every pool's length "
+        "(subs_through_constructor, xreplace_through_constructor, subs_keeps_pool_sizes), hence subs-then-doit = doit-then-subs as values also when the "
+        "substitution makes pool entries equal (subs_through_constructor_then_doit, xreplace_through_constructor_value); decide-witnesses that a "
+        "constructor validating in a pass of its own (iterators emptied) or dropping repeated values breaks the property. "
+        "Unbounded in all inputs. Standing hypothesis wfSums (decidable, part of the model): distinct index "
         "symbols, pool values pool-sum-free that mention neither an index of the same sum nor a symbol bound inside the summand; substituted terms "
         "mention no bound symbol. What it excludes is generated, compared structurally with the model, probed on the real code and recorded."
     ),
@@ -232,7 +273,12 @@ MANIFEST = {
         "src/ampform/sympy/__init__.py by running both on seeded random terms (0-4 indices, nesting <= 3, pools of rationals, pool-only symbols, "
         "symbols shared with the summand, outer indices and compound values — inner pools depending on outer indices with and without the index "
         "in the inner summand —, random substitution maps incl. ones hitting indices, pool-only and pool+summand symbols; the distribution is in the "
-        "evidence): results compared with == after rebuilding the model's output with the real SymPy constructors, and — for every term the model's "
+        "evidence) and, for the constructor, by building the real object from the ORIGINAL iterable of 18 kinds (list, tuple, range, set, frozenset, sympy.Tuple, "
+        "dict, keys/values views, generator, map, filter, map over zip, iter(list/tuple), reversed, itertools.chain/islice; values as Python ints, Fractions, SymPy "
+        "numbers, symbols, compound terms; literal duplicates; empty pools and exhausted iterators; every kind in every run) and comparing stored args, "
+        "evaluate=True, evaluate, doit, cleanup, free_symbols, func(*args), subs and xreplace with substitutions that IDENTIFY pool entries with psumNew and the term model "
+        "(the constructor variant — one pass, nothing dropped — is inferred by probes); results compared with == after rebuilding the model's output with the real "
+        "SymPy constructors, pool sums of a model RESULT with Expr.__new__ (not through the constructor under test), and — for every term the model's "
         "wfSums accepts — the Lean denotation compared with the exact rational value of the real .doit() result; the variant (bound-index protection, shallow "
         "_get_arguments) is inferred from the real code by probes. SymPy's Add/Mul/Pow canonicalisation and subs/xreplace on built-in "
         "nodes are executed, not modelled; the S-expression converter and the Python mirror of the evaluator are trusted harness code."
